@@ -104,7 +104,10 @@ CLAIMED = {
         "Props/C02Tags.lean: the same for the variable-width tag index under the two hypotheses the open findings show to be "
         "necessary (no `since`; no NUL in stored indexed tags nor in the requested names / values): C02_kv_tags_complete_nosince, "
         "C02_kv_tags_filter_complete, incl. that the planner's own sort hands the match values over in strictly descending order. "
-        "Partial: with `since`, with NUL characters, and for MultiIndex plans the tag index is covered by the conditional theorem "
+        "Props/C02Multi.lean: a scan restricted to the `events` container of a chained plan is the unrestricted scan filtered by "
+        "membership, so the candidates of a MultiIndex plan contain every id both unrestricted scans yield (C02_kv_multi_candidates; "
+        "C02_kv_kinds_tags_filter_complete as the worked REQ-level instance). "
+        "Partial: with `since` and with NUL characters the tag index is covered by the conditional theorem "
         "(C02_kv_scan_complete), the witnesses of the open findings kv-tag-prefix-since / kv-tag-nul-extension-window and "
         "the search only. Trusted: as C01. Domain: well-formed conjunctive filters (not {} / pure unbounded range scans, "
         "ids/authors of 64 hex digits, no `search`).",
